@@ -293,6 +293,7 @@ fn ordc(o: std::cmp::Ordering) -> char {
 }
 
 /// the signature actually written in front of the value when it is encoded as a variant
+/// (used for values with descriptors, whose decoded copy carries dup'ed numbers)
 fn encoded_sig_matches(v: &V) -> char {
     match zvariant::to_bytes(Context::new_dbus(LE, 0), v) {
         Ok(data) => {
@@ -319,6 +320,17 @@ fn encodes_as_reported(v: &V) -> char {
             Err(_) => 'F',
         },
         Err(_) => 'F',
+    }
+}
+
+fn contains_fd(v: &Value<'_>) -> bool {
+    match v {
+        Value::Fd(_) => true,
+        Value::Value(x) => contains_fd(x),
+        Value::Array(a) => a.iter().any(contains_fd),
+        Value::Dict(d) => d.iter().any(|(k, x)| contains_fd(k) || contains_fd(x)),
+        Value::Structure(s) => s.fields().iter().any(contains_fd),
+        _ => false,
     }
 }
 
@@ -377,7 +389,7 @@ fn law(rest: &str) -> String {
             }
             Err(_) => ow.push_str("EEEE"),
         }
-        en.push(encoded_sig_matches(v));
+        en.push(if contains_fd(v) { encoded_sig_matches(v) } else { encodes_as_reported(v) });
     }
     format!(
         "eq={} pc={} cm={} hs={} sg={},{},{} cl={} ow={} en={} pr={},{},{}",
@@ -533,6 +545,9 @@ where
         Ok(_) | Err(PErr::Bad) => return "BADCASE".into(),
         Err(PErr::Build) => return "ERR:build".into(),
     };
+    // what the implementation understood the case to be (the oracle compares the result with this, not with the case text)
+    let mut input = String::new();
+    x.print(&mut input);
     let v: V = x.into();
     let vt = shows(&v);
     let sg = v.value_signature().to_string();
@@ -541,9 +556,9 @@ where
         Ok(b) => {
             let mut s = String::new();
             b.print(&mut s);
-            format!("{} {} {} OK:{}", vt, sg, en, s)
+            format!("{} {} {} {} OK:{}", vt, sg, en, input, s)
         }
-        Err(_) => format!("{} {} {} ERR", vt, sg, en),
+        Err(_) => format!("{} {} {} {} ERR", vt, sg, en, input),
     }
 }
 
